@@ -53,3 +53,9 @@ MR(v1,[0],v2,0,v3,[1])|R(v2.k0) ||| MATCH (v3:L1)<-[v2:T0]-(v1:L0) RETURN v2.k0 
 MN(v1,[2],{});MN(v3,[1],{});C((v1,[],{})>1{k0:#I9}>(v3,[],{})) ||| MATCH (v1:L2) MATCH (v3:L1) CREATE (v1)-[:T1 {k0: 9}]->(v3)
 MR(v1,[0],v2,999,v3,[1])|R(v2.k0) ||| MATCH (v1:L0)-[v2]->(v3:L1) RETURN v2.k0 AS c0
 MR(v1,[2],v2,999,v3,[1])|R(v2.k0) ||| MATCH (v3:L1)<-[v2]-(v1:L2) RETURN v2.k0 AS c0
+!reset
+# 8. a freshly declared variable recurring inside ONE comma-free CREATE path is ONE node (class of the seeded change C04-d)
+C((v1,[0],{k0:#I1})>0{}>(v2,[1],{k0:#I2}),(v2,[],{})>1{}>(v1,[],{})) ||| CREATE (v1:L0 {k0: 1})-[:T0]->(v2:L1 {k0: 2})-[:T1]->(v1)
+C((v1,[2],{k0:#I7})>0{}>(v1,[],{})) ||| CREATE (v1:L2 {k0: 7})-[:T0]->(v1)
+C((v1,[0],{k0:#I3})>0{}>(v2,[1],{k0:#I4}),(v2,[],{})>1{}>(v2,[],{}))|R(v1.k0,v2.k0) ||| CREATE (v1:L0 {k0: 3})-[:T0]->(v2:L1 {k0: 4})-[:T1]->(v2) RETURN v1.k0 AS c0, v2.k0 AS c1
+C((v1,[0],{k0:#I5}),(v2,[1],{k0:#I6}),(v1,[],{})>0{}>(v2,[],{})) ||| CREATE (v1:L0 {k0: 5}), (v2:L1 {k0: 6}), (v1)-[:T0]->(v2)
